@@ -457,10 +457,7 @@ func monMetaFilterProbe(hr *HistRun, p Probe, a ProbeAns) string {
 	if at != nil {
 		when = fmt.Sprintf("metadata as of %d", *at)
 	}
-	tag := "[metadata-filter-as-of]"
-	if !hr.Feat.AccHist && p.Kind == "volq" && (p.PIT != nil || p.OOT != nil) {
-		tag = "[volumes-metadata-filter-history-off]"
-	}
+	tag := "[metadata-filter-as-of]" // no exemption: volumes with a window and the feature DISABLED were repaired by f445e43
 	switch p.Kind {
 	case "volq":
 		unf, err := hr.volumesQ(p.PIT, p.OOT, p.Ins, 0, nil)
